@@ -1,5 +1,6 @@
 """Shared driver of the graph-family checks: TLC case enumeration, parallel replay, emitted-program judging."""
 import multiprocessing as mp
+from .par import RobustPool
 
 from .common import NPROC, write_ndjson
 from .tlc import run_tlc, MachineryError
@@ -28,7 +29,7 @@ def _call(args):
 def pmap(fn, jobs):
     if not jobs:
         return []
-    with mp.get_context("fork").Pool(NPROC) as pool:
+    with RobustPool(NPROC) as pool:
         return pool.map(_call, [(fn, j) for j in jobs], chunksize=1)
 
 
